@@ -12,8 +12,10 @@ import torch
 TOL = {
     torch.float64: 1e-10,
     torch.float32: 2e-5,
-    torch.bfloat16: 2.0**-6,
-    torch.float16: 2.0**-9,
+    # 8 ulp of the dtype: library and reference apply the same kernels in a different order (thorough-tier sampling found
+    # residuals of 4.04 ulp in bfloat16 rms_norm and 4.2 ulp in float16 silu_glu on the unchanged tree: 4 ulp was too tight)
+    torch.bfloat16: 2.0**-5,
+    torch.float16: 2.0**-8,
 }
 DTYPES = {
     "float64": torch.float64,
